@@ -12,7 +12,7 @@ CHECKS = {
    design_ref="DESIGN.md section 6, C03",
    note="Trusted: TLC, the Json community module, the recorder's projection through hwloc_bitmap_next/next_unset (itself cross-checked against isset probes by the trace spec). Not explored: ENOMEM paths, indexes above 2^20."),
  "C01": dict(
-   technique="TLA+ specification of a well-formed topology (spec/Topology.tla, one named conjunct per clause of the property) evaluated by TLC on the full projection of every topology the rebuilt library loads; configurations (filter and flag call sequences, legal and illegal) enumerated and simulated by TLC from spec/MC_Load.tla + Lifecycle.tla and replayed over synthetic families, bundled XML, Linux snapshots, CPUID dumps and the live machine",
+   technique="TLA+ specification of a well-formed topology (spec/Topology.tla, one named conjunct per clause of the property) evaluated by TLC on the full projection of every topology the rebuilt library loads; configurations (filter and flag call sequences, legal and illegal, and the caller's own CPU binding before a RESTRICT_TO_CPUBINDING load) enumerated and simulated by TLC from spec/MC_Load.tla + Lifecycle.tla and replayed over synthetic families, bundled XML, Linux snapshots, CPUID dumps and the live machine",
    category="model_checking",
    text="TLC enumerates the configuration model and validates each recorded load against the configuration relations (SetFlagsRel, SetFilterRel) and the 20-clause WellFormed predicate, which is written from the property and independent of hwloc_topology_check(); hwloc_topology_check() itself is run in a forked child and its abort is one clause. The source x configuration product is sampled per source in the quick tier and much wider in the thorough tier.",
    design_ref="DESIGN.md section 6, C01",
@@ -78,7 +78,7 @@ CHECKS = {
    design_ref="DESIGN.md section 6, C09",
    note="Trusted: project.h, WellFormed as the hypothesis, TLC. Helpers documented as needing cpusets are not called on I/O or Misc objects; an infinite tail in an argument set is cut at index 1023; errno values are not judged. Distrib disjointness is demanded when n <= #PUs and `until` does not cut the recursion (see DESIGN.md)."),
  "C10": dict(
-   technique="explicit TLA+ relation per binding entry point (spec/Bind.tla Rel), TLC-exhaustive bounded model of bind.c plus dummy and Linux hooks over an abstract kernel checked against it (spec/MC_Bind.tla), transition tours replayed on the rebuilt library with sched_setaffinity, pthread_setaffinity_np and syscall() interposed, and the recorded ndjson validated by TLC (spec/TraceBind.tla)",
+   technique="explicit TLA+ relation per binding entry point (spec/Bind.tla Rel) plus the canonical-form equivalence SameHandling, TLC-exhaustive bounded model of bind.c with dummy and Linux hooks over an abstract kernel checked against it (spec/MC_Bind.tla) on 10 hand-picked topology kinds and on one topology per model-computed shape class (spec/MC_BindShape.tla) with model-computed boundary classes of sets (spec/BindClasses.tla), transition tours (each memory request followed by its canonical twin) replayed on the rebuilt library with sched_setaffinity, pthread_setaffinity_np and syscall() interposed, and the recorded ndjson validated by TLC (spec/TraceBind.tla)",
    category="model_checking",
    text="The bounded model is explored exhaustively (10 topology kinds x all flag words x all sets over 6-7 atoms x policies; all reachable affinity and policy states); every explored transition (thorough) or a seeded fraction (quick) is executed on the real library and each event, including what reached the OS, is decided by the relation; live round trips run on this machine.",
    design_ref="DESIGN.md section 6, C10",
